@@ -758,6 +758,12 @@ func (e *enc) specCall(env *specEnv, n *SCall) (tval, error) {
 			return tval{}, fmt.Errorf("NVisited() is only available in invariants of a loop that ranges over a map")
 		}
 		return tval{fmt.Sprintf("(Card_%s %s)", env.visitedSort, env.visited), intTy, "Int"}, nil
+	case "Readable":
+		as, err := args()
+		if err != nil || len(as) != 1 || as[0].sort != "String" {
+			return tval{}, fmt.Errorf("Readable(path string)")
+		}
+		return bl(fmt.Sprintf("(%s %s)", e.uf("FileReadable", []string{"String"}, "Bool"), as[0].t))
 	case "File":
 		// File(path): the current content of the file in the ghost file system
 		as, err := args()
